@@ -321,6 +321,49 @@ def cursor_layer(ctx):
             return
 
 
+def deferred_fetch_layer(ctx):
+    """results fetched late: what `conn.execute()` returned keeps its rows, description and position whatever is executed
+    on the connection before it is read (other statements, the same statement with other parameters, inside a loop
+    over the first result)"""
+    rng = ctx.rng
+    table = std_table(rng, nrows=5, small=True)
+    conn = impl.connection([table])
+    stmts = [('SELECT i, s FROM #t ORDER BY i', None), ('SELECT s AS name, count(*) AS n FROM #t GROUP BY s', None),
+             ('SELECT i + %s AS v FROM #t', (10,)), ('SELECT i + %s AS v FROM #t', (20,)), ('SELECT j FROM #t WHERE i > %(k)s', {'k': 0}),
+             (conn.parse('SELECT i FROM #t LIMIT 2'), None)]
+    fresh = [impl.run_select(impl.connection([table]), t, copy.deepcopy(p)) for t, p in stmts]
+    for opener in ('connection', 'cursor'):
+        for order in (list(range(len(stmts))), list(reversed(range(len(stmts)))), [0, 2, 4, 1, 3, 5]):
+            held = []
+            for k in order:
+                t, p = stmts[k]
+                held.append((k, conn.execute(t, p) if opener == 'connection' else conn.cursor().execute(t, p)))
+            # read them back in the order they were obtained: every one is still its own result
+            for k, cur in held:
+                try:
+                    got = proto.show_result(cur.description, cur.fetchall(), proto.Opaque())
+                except Exception as exc:  # noqa: BLE001
+                    got = impl.classify_exc(exc)
+                ctx.evaluations += 1
+                ctx.count('deferred-fetch')
+                ctx.nontrivial_hashes.add(hash(('deferred', opener, tuple(order), k)))
+                if got != fresh[k]:
+                    ctx.record_violation('history-dependent-result', 'results opened through %s in order %r, statement %d read late: %s, fresh: %s'
+                                         % (opener, order, k, got[:200], fresh[k][:200]), meta={'order': order})
+                    return
+    # a loop over one result that executes another statement per row
+    outer = conn.execute('SELECT i FROM #t ORDER BY i')
+    seen = []
+    for (i,) in outer:
+        inner = conn.execute('SELECT count(*) AS n FROM #t WHERE i <= %s', (i,)).fetchall()
+        seen.append((i, inner))
+    want = [(r[0], conn.execute('SELECT count(*) AS n FROM #t WHERE i <= %s', (r[0],)).fetchall())
+            for r in impl.connection([table]).execute('SELECT i FROM #t ORDER BY i').fetchall()]
+    ctx.evaluations += 1
+    if seen != want:
+        ctx.record_violation('history-dependent-result', 'loop over a result executing per row: %r, expected %r' % (seen, want))
+
+
 NULL_TEXTS = [
     ('SELECT i, %(note)s AS note FROM #t WHERE j >= %(min)s', {'note': None, 'min': 0}),
     ('SELECT i, %s AS note FROM #t WHERE j >= %s', (None, 0)),
@@ -456,6 +499,7 @@ def ledger_history_layer(ctx, nledgers):
 def run(ctx):
     order_layer(ctx)
     cursor_layer(ctx)
+    deferred_fetch_layer(ctx)
     ledger_history_layer(ctx, 8 if ctx.thorough() else 2)
     binding_layer(ctx, 1500 if ctx.thorough() else 250)
     folding_layer(ctx, 1500 if ctx.thorough() else 250)
